@@ -290,6 +290,20 @@ func runC09(c core.Case) core.Result {
 	r := rand.New(rand.NewSource(c.Seed))
 	base := core.WorkerScratch()
 	ls := genLayout(r, c.Str("keys", "hostile"), 12, 40)
+	disjoint := c.Int("disjoint", 0) == 1
+	if disjoint {
+		// most flushes get a key window of their own: levels below L0 then hold several disjoint
+		// tables, and a table pushed down often meets nothing to merge with
+		for fi, f := range ls.Flushes {
+			if r.Intn(7) == 0 {
+				continue
+			}
+			for i := range f {
+				f[i].User = fmt.Sprintf("w%02d-%s", fi, f[i].User)
+			}
+			sortEntries(f)
+		}
+	}
 	dir := filepath.Join(base, c.ID)
 	mustMkdir(dir)
 	defer os.RemoveAll(dir)
@@ -351,6 +365,9 @@ func runC09(c core.Case) core.Result {
 	var steps []string
 	compactions, dropped := 0, 0
 	nsteps := 1 + r.Intn(5)
+	if disjoint {
+		nsteps = 4 + r.Intn(7)
+	}
 	fail := func(sig, detail string) {
 		res.Violate("C09", "C09/"+sig, "%s\nsteps: %s\nlayout: %v", detail, strings.Join(steps, " ; "), describeLayout(ls))
 	}
@@ -360,7 +377,11 @@ func runC09(c core.Case) core.Result {
 		lens := lv.LevelLens()
 		var did bool
 		var what string
-		switch x := r.Intn(10); {
+		x := r.Intn(10)
+		if disjoint && x >= 5 && x < 8 && r.Intn(3) > 0 {
+			x = 3 // more pushes of single tables, fewer full rounds
+		}
+		switch {
 		case x < 3:
 			what = "CompactL0"
 			did = lv.CompactL0()
@@ -490,6 +511,9 @@ func genC09(tier string, seed int64) []core.Case {
 		if i < 3 {
 			c.N["sample"] = 1
 		}
+		if i%5 == 2 {
+			c.N["disjoint"] = 1
+		}
 		cs = append(cs, c)
 	}
 	nrec := 30
@@ -546,7 +570,7 @@ func c09SelfTest() error {
 func init() {
 	core.Register(&core.Check{
 		Prop: "C09", Level: "exploration",
-		Rule: "case = 2-12 generated tables (1-40 entries, several versions and tombstones per key, duplicates across tables, hostile/windowed/long/binary keys) in a standalone level manager, block size/L0 target/ratio drawn, then 1-5 steps of CompactL0 / CompactLN(n) / CheckAndCompact / further flush / watermark raise (0, 1, a version, version+1, max, beyond); after every compaction: directory dump before vs after (only versions shadowed at or below the watermark may vanish, nothing appears or changes, tables sorted) and every key x timestamp >= watermark looked up against the brute-force model of everything flushed; finally the same lookups on handles rebuilt by recovery; non-trivial = a compaction happened, >=1 version was legitimately dropped and >=1 tombstone survived; recovered cases: 10-12 small tables pile up in L0 (file indices with one and two digits), the handles are rebuilt by recovery, then 2-5 further flushes/compactions run ON the recovered handles, each judged like a direct step, and a second recovery is compared again; db cases: a sequential database workload (as C01) in which every real compaction - real watermark, real tables - is judged in situ by the same input/output oracle through the compaction hook, non-trivial = compactions ran with a watermark > 0 and dropped versions; distinct by hash of layout+steps / case parameters",
+		Rule: "case = 2-12 generated tables (1-40 entries, several versions and tombstones per key, duplicates across tables, hostile/windowed/long/binary keys) in a standalone level manager, block size/L0 target/ratio drawn, (every fifth layout gives most flushes a key window of their own: several disjoint tables per level, 4-10 steps biased to CompactLN; a sixth of the layouts has an L0 of 5-12 tables), then 1-5 steps of CompactL0 / CompactLN(n) / CheckAndCompact / further flush / watermark raise (0, 1, a version, version+1, max, beyond); after every compaction: directory dump before vs after (only versions shadowed at or below the watermark may vanish, nothing appears or changes, tables sorted) and every key x timestamp >= watermark looked up against the brute-force model of everything flushed; finally the same lookups on handles rebuilt by recovery; non-trivial = a compaction happened, >=1 version was legitimately dropped and >=1 tombstone survived; recovered cases: 10-12 small tables pile up in L0 (file indices with one and two digits), the handles are rebuilt by recovery, then 2-5 further flushes/compactions run ON the recovered handles, each judged like a direct step, and a second recovery is compared again; db cases: a sequential database workload (as C01) in which every real compaction - real watermark, real tables - is judged in situ by the same input/output oracle through the compaction hook, non-trivial = compactions ran with a watermark > 0 and dropped versions; distinct by hash of layout+steps / case parameters",
 		Gen:  genC09, Run: runC09, BatchSize: 10, GoMaxProcs: 1, Parallel: 8,
 		SelfTest:      c09SelfTest,
 		MinNonTrivial: map[string]int{"quick": 20, "thorough": 500},
